@@ -199,6 +199,25 @@ def run(report, p):
             guards = [t for t, l in gsf.control_deps(cn) if t.kind == "test" and any(k in norm(t.ast) for k in ("commonpath", "startswith", "relpath", "is_relative_to", "..")) ]
             r5.check(bool(guards), sf, c, "a path named with -sf is sealed without checking that it lies inside the history root: `create ROOT -sf ../other/z.txt` records <path>../other/z.txt</path> (a path escaping the root)", construct="-sf path sealed without containment test")
 
+    # ------------------------------------------------------------------ R2.6
+    r6 = report.rule(
+        "R2.6",
+        "file vs directory records: outside the readers a record's `is_directory` is only ever set to the constant True, by the code that records a folder; it is never computed "
+        "from another value (e.g. from a missing / zero size): a 0-byte file must not become a <directoryhash> record",
+        2,
+    )
+    _unshipped = unshipped_modules(p)
+    for fq, f in sorted(p.funcs.items()):
+        if f.module.name in _unshipped or f.module.name.endswith("_xml_parser"):
+            continue
+        for n in walk_no_nested(f.node):
+            if isinstance(n, ast.Assign) and any(isinstance(t, ast.Attribute) and t.attr == "is_directory" for t in n.targets):
+                r6.instance(f, n, norm(n)[:70])
+                v = n.value
+                r6.check(isinstance(v, ast.Constant) and v.value in (True, False), f, n, f"`{norm(n)[:70]}`: whether a record is a directory is derived from `{norm(v)[:40]}` instead of being stated by the code path that records a folder: files for which that value is falsy (size 0) are recorded as directories", construct="is_directory computed from a value")
+                if isinstance(v, ast.Constant) and v.value is True and f.cls and f.cls.endswith("MHLHashList"):
+                    r6.check(False, f, n, "the hash list marks records as directories itself", construct="is_directory set in the model")
+
     # ---- rules shared with other properties (same mechanism, same rule, reported under every property it can break)
     include_rules(report, p, 'c08', ['R8.1', 'R8.2'], 'records must land in the deepest history with a path relative to its root (routing)')
     include_rules(report, p, 'c01', ['R1.1'], 'a record carries a correct digest only if the whole file is hashed')
